@@ -355,6 +355,26 @@ def check_closed_form(case, shard, mon, rng):
                 else:
                     shard.ok("closed_form")
                     shard.maximum(f"closed_form_gap_{opt}", fun - ref_fun)
+    # a fixed-POI fit of the signal-strength-only model leaves nothing free: it must still succeed, return the supplied
+    # value and the honest objective (every hypothesis test on such a model makes this call).  Default path only: with
+    # stitching there is no parameter left to hand to an optimiser at all.
+    if kind == "counting" and not case.get("release") and not case.get("signal_scale"):
+        mu_t = [0.0, 1.0, 2.5][case["data"] and int(sum(case["data"])) % 3]
+        if lo <= mu_t <= hi:
+            want = float(RS.counting_nll2(mu_t, case["data"], ss, bs))
+            for opt in case["optimizers"]:
+                set_opt(opt)
+                try:
+                    x, fun = run_fit(model, data, list(init), list(bounds), list(fixed), mu_t)
+                    fun = float(to_np(fun).reshape(-1)[0])
+                    xs = [float(v) for v in to_np(x)]
+                    if xs != [mu_t] or not abs(fun - want) <= 1e-8 * (1 + abs(want)):
+                        shard.violate(f"C05/nothing-free-fit-wrong:{opt}", f"fixed-POI fit at mu={mu_t} of a POI-only model returned {xs} with 2NLL {fun!r}, expected {[mu_t]} with {want!r}", dict(case, key=[opt, "fixed-poi", mu_t]), "closed_form")
+                    else:
+                        shard.ok("closed_form")
+                        shard.covered("masks", f"{opt}: fixed-POI fit with no free parameter left")
+                except Exception as e:
+                    shard.violate(f"C05/nothing-free-fit-raised:{opt}", f"fixed-POI fit at mu={mu_t} of a POI-only model raised {type(e).__name__}: {str(e)[:150]}; backend={pyhf.tensorlib.name}", dict(case, key=[opt, "fixed-poi", mu_t]), "closed_form")
     set_opt("scipy")
     if case.get("signal_scale"):
         shard.covered("starts", f"default start mu=1 with the signal scaled by {case['signal_scale']:g} (hundreds of sigma from the data)")
